@@ -345,7 +345,10 @@ fn check_constructors(dim: usize) -> CaseOut {
         }
     }
     // axis_bounds / hyperrectangle with infinite bounds
-    let bounds = [(f64::NEG_INFINITY, f64::INFINITY), (f64::NEG_INFINITY, 1.0), (-1.0, f64::INFINITY), (-1.0, 2.0), (0.5, 0.5), (-2.0, -1.0)];
+    let bounds = [
+        (f64::NEG_INFINITY, f64::INFINITY), (f64::NEG_INFINITY, 1.0), (f64::NEG_INFINITY, -0.5), (f64::NEG_INFINITY, 2.0),
+        (-1.0, f64::INFINITY), (0.5, f64::INFINITY), (-2.0, f64::INFINITY), (-1.0, 2.0), (0.5, 0.5), (-2.0, -1.0),
+    ];
     for axis in 0..n {
         for (lo, hi) in bounds {
             out.add("evaluations", 1);
